@@ -3,6 +3,9 @@ package l1
 import (
 	"bytes"
 	"fmt"
+	"sync"
+
+	"verifharness/fmtx"
 
 	ophosttypes "github.com/initia-labs/OPinit/x/ophost/types"
 )
@@ -18,6 +21,7 @@ func (ch *Chain) ExportImport() (same bool, err error) {
 		}
 	}()
 	f := ch.F
+	ch.ClaimsKept = ch.claimsProbe()
 	gs := f.Host.ExportGenesis(ch.Ctx)
 	bz, err := f.Cdc.MarshalJSON(gs)
 	if err != nil {
@@ -73,5 +77,90 @@ func (ch *Chain) InitRaw(periodTicks int64) (accepted bool) {
 	}
 	f2, ctx2 := NewFixture()
 	f2.Host.InitGenesis(ctx2.WithBlockHeight(0), &gs2)
+	return true
+}
+
+var (
+	edgeMu    sync.Mutex
+	edgeCache = map[string][32]byte{}
+)
+
+// edgeHash finds (and remembers) the hash of a withdrawal tuple of the bridge that starts with the given bytes.
+func edgeHash(id uint64, from, to, denom string, pre []byte) [32]byte {
+	key := fmt.Sprintf("%d|%s|%s|%s|%x", id, from, to, denom, pre)
+	edgeMu.Lock()
+	defer edgeMu.Unlock()
+	if a, ok := edgeCache[key]; ok {
+		return a
+	}
+	for seq := uint64(1 << 40); ; seq++ {
+		h := fmtx.Leaf(id, seq, from, to, denom, 1)
+		if bytes.HasPrefix(h, pre) {
+			var a [32]byte
+			copy(a[:], h)
+			edgeCache[key] = a
+			return a
+		}
+	}
+}
+
+// claimsProbe: claim records are keyed by (bridge, withdrawal hash); the hashes of the few withdrawals a model pays
+// never sit at the edges of the key space.  On a branch of the current state the probe records, for every bridge, claims
+// of real withdrawal tuples whose hashes start with 0x00, 0xff and 0xffff (found by search over the sequence), takes
+// that state through the same export / validate / import path and asks the re-imported chain about each of them.
+func (ch *Chain) claimsProbe() (kept bool) {
+	defer func() {
+		if r := recover(); r != nil {
+			kept = false
+		}
+	}()
+	f := ch.F
+	cc, _ := ch.Ctx.CacheContext()
+	type rec struct {
+		b uint64
+		h [32]byte
+	}
+	var recs []rec
+	var ids []uint64
+	if err := f.Host.BridgeConfigs.Walk(cc, nil, func(id uint64, _ ophosttypes.BridgeConfig) (bool, error) {
+		ids = append(ids, id)
+		return len(ids) >= 3, nil
+	}); err != nil {
+		panic(err)
+	}
+	from, to, denom := ch.C.Addr("u2"), ch.C.Addr("u1"), ch.C.Denom("d1")
+	for _, id := range ids {
+		for _, pre := range [][]byte{{0x00}, {0xff}, {0xff, 0xff}} {
+			a := edgeHash(id, from, to, denom, pre)
+			if err := f.Host.RecordProvenWithdrawal(cc, id, a); err != nil {
+				panic(err)
+			}
+			recs = append(recs, rec{id, a})
+		}
+	}
+	gs := f.Host.ExportGenesis(cc)
+	bz, err := f.Cdc.MarshalJSON(gs)
+	if err != nil {
+		panic(err)
+	}
+	var gs2 ophosttypes.GenesisState
+	if err := f.Cdc.UnmarshalJSON(bz, &gs2); err != nil {
+		panic(err)
+	}
+	if err := ophosttypes.ValidateGenesis(&gs2, f.AC); err != nil {
+		return false
+	}
+	f2, ctx2 := NewFixture()
+	ctx2 = ctx2.WithBlockHeader(ch.Ctx.BlockHeader())
+	initCtx := ctx2.WithBlockHeight(0)
+	f2.Account.InitGenesis(initCtx, *f.Account.ExportGenesis(cc))
+	f2.Bank.InitGenesis(initCtx, f.Bank.ExportGenesis(cc))
+	f2.Host.InitGenesis(initCtx, &gs2)
+	for _, r := range recs {
+		ok, err := f2.Host.HasProvenWithdrawal(ctx2, r.b, r.h)
+		if err != nil || !ok {
+			return false
+		}
+	}
 	return true
 }
